@@ -251,6 +251,10 @@ func (d *dumper) attr(a model.FieldAttribute, depth int) interface{} {
 	if a == nil || (reflect.ValueOf(a).Kind() == reflect.Ptr && reflect.ValueOf(a).IsNil()) {
 		return nil
 	}
+	if _, isDyn := a.(*model.DynamicStringFieldAttribute); isDyn {
+		// zero-size object: Go gives all of them one address, identity means nothing
+		return M{"k": "dyn"}
+	}
 	id, seen := d.attrIDs[a]
 	if !seen {
 		id = len(d.attrIDs)
